@@ -419,7 +419,7 @@ def canon(j):
                 v = list(v)
                 v[3] = sorted(v[3], key=lambda x: json.dumps(x, sort_keys=True))
                 v[4] = sorted(v[4], key=lambda x: json.dumps(x, sort_keys=True))
-            if k == 'msg':
+            if k in ('msg', 'rtsafe'):
                 continue
             out[k] = v
         return out
